@@ -193,15 +193,16 @@ def le (w n : Nat) (a b : List Nat) : Bool := lt w n a b || a == b
 def gt (w n : Nat) (a b : List Nat) : Bool := !(le w n a b)
 def ge (w n : Nat) (a b : List Nat) : Bool := !(lt w n a b)
 
-/-- `operator<<=` for a positive count (blockbinary.hpp:411-442) — NO MSU mask (defect D7) -/
+/-- `operator<<=` for a positive count (blockbinary.hpp:411-446): `_block[MSU] &= MSU_MASK` on both exits
+    (repaired in 433c6a0, was defect D7) -/
 def shlPos (w n : Nat) (a : List Nat) (s : Nat) : List Nat :=
   if s > n then zeros a.length
   else
     let bs := if s ≥ w then s / w else 0
     let a1 := if s ≥ w then shlBlocks a bs else a
     let s1 := s - bs * w
-    if s ≥ w && s1 == 0 then a1
-    else shlBits w s1 0 a1
+    if s ≥ w && s1 == 0 then maskMSU w n a1
+    else maskMSU w n (shlBits w s1 0 a1)
 
 /-- `operator>>=` for a positive count (blockbinary.hpp:444-513) -/
 def shrPos (w n : Nat) (a : List Nat) (s : Nat) : List Nat :=
